@@ -528,7 +528,6 @@ func (h *H) structured(r *cv.Rand, nRandom int, shapeDepth int) {
 			}
 			v := abigen.GenValue(r, abigen.Tup(ts...), abigen.VOpts{MaxArr: 2})
 			x := abigen.ToExt(r, v, abigen.ReprOpts{GoValues: rep == 1, TupleObject: 2 - rep})
-			x = topAsList(x, rep == 0 && r.Bool())
 			h.st.Hit(fmt.Sprintf("shape-depth:%d", t.Depth()))
 			h.addEnc("shape", modeFor(r, x), ts, x, v, false, "")
 		}
@@ -569,9 +568,6 @@ func (h *H) structured(r *cv.Rand, nRandom int, shapeDepth int) {
 		}
 	}
 }
-
-// the top-level input may be an array or (when all parameters are named) an object
-func topAsList(x *abigen.Ext, _ bool) *abigen.Ext { return x }
 
 // arity errors: fixed arrays and tuples with one element too few / too many, objects with a missing key
 func (h *H) arity(r *cv.Rand, n int) {
